@@ -422,7 +422,20 @@ func (f *frame) run(args []T, st0 *State, pc0 string) {
 		}
 		if latchChain[to] {
 			// a join that only leads (straight-line) to the loop's back edge: executed once per
-			// incoming path, so that invariant preservation is decided path by path
+			// incoming path, so that invariant preservation is decided path by path; its phis take
+			// the value of this path's edge
+			for _, ins := range to.Instrs {
+				phi, ok := ins.(*ssa.Phi)
+				if !ok {
+					break
+				}
+				for i, bp := range to.Preds {
+					if bp == from {
+						f.vals[phi] = f.val(phi.Edges[i])
+						break
+					}
+				}
+			}
 			f.block(to, c, st.clone(), addEdge)
 			return
 		}
